@@ -1,5 +1,6 @@
 import Nstd.Common.Basic
 import Nstd.Hash.Model
+import Nstd.Hash.PtrModel
 /-
   Line protocol of the Hash area (HashMap / HashSet / PoolMap).
 
@@ -14,6 +15,8 @@ import Nstd.Hash.Model
      <result> || <table 0> || <table 1> || eq=<t0==t1> <t1==t0> <t0==t0>
   with  <table> = n=<size> e=<isEmpty> it=<k:v,...|-> f=<find(0)>,<find(1)>,... c=<contains bits> fr=<front|-> bk=<back|->
   Everything printed is obtained through `step` (queries are ops of the model).
+  The driver runs BOTH models in lock-step: the chain-list model (`Model.lean`, `step`) and the pointer-level
+  model (`PtrModel.lean`, `pstep`); a line on which they differ is printed as `MODEL-MISMATCH …`.
   An op the container does not have / an invalid iterator prints `bad-op` (state unchanged).
 -/
 open Nstd.Common
@@ -24,6 +27,7 @@ structure DState where
   mode : Nat
   dom : Nat
   st : State
+  pst : Ptr.PState
 
 def hashFn (mode : Nat) (k : Nat) : Nat :=
   if mode = 0 then k
@@ -32,7 +36,7 @@ def hashFn (mode : Nat) (k : Nat) : Nat :=
   else if mode = 3 then 2 ^ 64 - 1 - k      -- (usize)~k: huge hash codes
   else k / 2
 
-def dinit : DState := ⟨Kind.map, 0, 6, init⟩
+def dinit : DState := ⟨Kind.map, 0, 6, init, Ptr.pinit⟩
 
 def outStr : Out → String
   | .unit => "unit"
@@ -42,23 +46,36 @@ def outStr : Out → String
   | .flag b => if b then "1" else "0"
   | .entries l => if l.isEmpty then "-" else ",".intercalate (l.map (fun e => s!"{e.1}:{e.2}"))
 
-def query (d : DState) (op : Op) : String :=
-  match step d.kind (hashFn d.mode) d.st op with
-  | some (_, o) => outStr o
-  | none => "-"
+/-- query through the chain-list model (`ptr = false`) or the pointer model -/
+def query (ptr : Bool) (d : DState) (op : Op) : String :=
+  if ptr then
+    match Ptr.pstep d.kind (hashFn d.mode) d.pst op with
+    | some (_, o) => outStr o
+    | none => "-"
+  else
+    match step d.kind (hashFn d.mode) d.st op with
+    | some (_, o) => outStr o
+    | none => "-"
 
 def numOnly (s : String) : String := if s.startsWith "num " then (s.drop 4).toString else s
 
-def obsTable (d : DState) (t : Bool) : String :=
+def obsTable (ptr : Bool) (d : DState) (t : Bool) : String :=
   let keys := List.range d.dom
+  let query := query ptr
   s!"n={numOnly (query d (.size t))} e={query d (.isEmpty t)} it={query d (.iterate t)} " ++
   s!"f={",".intercalate (keys.map (fun k => query d (.find t k)))} " ++
   s!"c={String.join (keys.map (fun k => query d (.contains t k)))} " ++
   s!"fr={numOnly (query d (.front t))} bk={numOnly (query d (.back t))}"
 
-def obs (d : DState) (res : String) : String :=
-  s!"{res} || {obsTable d false} || {obsTable d true} || " ++
+def obs1 (ptr : Bool) (d : DState) (res : String) : String :=
+  let query := query ptr
+  s!"{res} || {obsTable ptr d false} || {obsTable ptr d true} || " ++
   s!"eq={query d (.equal false true)} {query d (.equal true false)} {query d (.equal false false)}"
+
+/-- both models must give the same line -/
+def both (a b : String) : String := if a = b then a else s!"MODEL-MISMATCH list=[{a}] ptr=[{b}]"
+
+def obs (d : DState) (res : String) : String := both (obs1 false d res) (obs1 true d res)
 
 def idsStr (l : List Nat) : String := if l.isEmpty then "-" else ",".intercalate (l.map toString)
 
@@ -69,6 +86,27 @@ def whiteBox (t : Table) : String :=
     else []
   s!"wb cap={t.cap} alloc={if t.allocated then 1 else 0} blocks={t.blocks} " ++
   s!"chains={if chains.isEmpty then "-" else "|".intercalate chains} free={idsStr t.free} order={idsStr t.order}"
+
+/-- ids reached from `x` along `nxt`, at most `fuel` of them -/
+def follow (nxt : Nat → Option Nat) : Nat → Option Nat → List Nat
+  | _, none => []
+  | 0, some _ => []
+  | f + 1, some i => i :: follow nxt f (nxt i)
+
+/-- the same line read off the pointer model: chains along `nextCell` (checking every `cell` back-pointer),
+    free list along `prev`, order list along `next` -/
+def whiteBoxPtr (t : Ptr.PTable) : String :=
+  let chainOf (b : Nat) : List Nat := follow (fun i => (t.items i).nextCell) (4 * t.blocks + 1) (t.heads b)
+  let cellsOk (b : Nat) : Bool :=
+    let l := chainOf b
+    (l.zip (Ptr.CellRef.bucket b :: l.map Ptr.CellRef.nextOf)).all (fun p => (t.items p.1).cell == p.2)
+  let bs := if t.allocated then (List.range t.cap).filter (fun b => (t.heads b).isSome) else []
+  let chains := bs.map (fun b => s!"{b}:{idsStr (chainOf b)}")
+  let free := follow (fun i => (t.items i).prev) (4 * t.blocks + 1) t.freeItem
+  let order := match t.order with | some l => idsStr l | none => "FAULT"
+  s!"wb cap={t.cap} alloc={if t.allocated then 1 else 0} blocks={t.blocks} " ++
+  s!"chains={if chains.isEmpty then "-" else "|".intercalate chains} free={idsStr free} order={order}" ++
+  (if bs.all cellsOk then "" else " CELL-MISMATCH")
 
 def tab (s : String) : Option Bool :=
   if s = "0" then some false else if s = "1" then some true else none
@@ -103,12 +141,12 @@ def stepLine (d : DState) (ws : List String) : DState × String :=
   | ["cfg", k, m, n] =>
     match parseKind k, m.toNat?, n.toNat? with
     | some k, some m, some n =>
-      let d' : DState := ⟨k, m, n, init⟩
+      let d' : DState := ⟨k, m, n, init, Ptr.pinit⟩
       (d', obs d' "unit")
     | _, _, _ => (d, "bad-op")
   | ["wb", t] =>
     match tab t with
-    | some t => (d, whiteBox (d.st.get t))
+    | some t => (d, both (whiteBox (d.st.get t)) (whiteBoxPtr (d.pst.get t)))
     | none => (d, "bad-op")
   | ["hashstr", x] =>
     match fromHex x with
@@ -121,11 +159,13 @@ def stepLine (d : DState) (ws : List String) : DState × String :=
     match parseOp ws with
     | none => (d, "bad-op")
     | some op =>
-      match step d.kind (hashFn d.mode) d.st op with
-      | some (st', o) =>
-        let d' := { d with st := st' }
-        (d', obs d' (outStr o))
-      | none => (d, "bad-op")
+      match step d.kind (hashFn d.mode) d.st op, Ptr.pstep d.kind (hashFn d.mode) d.pst op with
+      | some (st', o), some (pst', po) =>
+        let d' := { d with st := st', pst := pst' }
+        (d', if o = po then obs d' (outStr o) else s!"MODEL-MISMATCH result list={outStr o} ptr={outStr po}")
+      | none, none => (d, "bad-op")
+      | some _, none => (d, "MODEL-MISMATCH ptr model rejects")
+      | none, some _ => (d, "MODEL-MISMATCH list model rejects")
 
 end Nstd.Hash
 
